@@ -636,6 +636,21 @@ pub fn purity(ctx: &GenCtx, rng: &mut Rng, run: u64) -> Plan {
     let nkeys = rng.range(3, 6) as usize;
     let budget = if ctx.quick { 120_000 } else { 500_000 };
     for k in 0..nkeys {
+        // some keys are siblings: same hash and seed as the previous key, another parameter list (key
+        // generation and signing may depend on (hash, parameter list, seed) only, so related keys must not
+        // influence each other either)
+        if k > 0 && rng.chance(1, 3) {
+            let hash = plan.keys[k - 1].hash;
+            let seed = plan.keys[k - 1].seed.clone();
+            let mut params = shape(rng, hash, 4, budget);
+            if params == plan.keys[k - 1].params {
+                params[0].0 = if params[0].0 == 8 { 4.max(crate::BUILD_MIN_W[0]) } else { 8 };
+            }
+            plan.keys.push(KeyCfg { hash, params, seed });
+            plan.procs.push(k);
+            plan.ops.push(Op::Keygen { key: k, aux: None });
+            continue;
+        }
         let hash = pick_plain_hash(rng);
         let params = shape(rng, hash, 4, budget);
         plan.keys.push(KeyCfg { hash, params, seed: rng.bytes(hash.n()) });
